@@ -252,7 +252,16 @@ var c06BigIntList, c06BigStrList = func() (string, string) {
 	return a.String(), b.String()
 }()
 
-var hostileDefaults = []interface{}{nil, int64(1), int64(0), true, false, "s", "", []int64{1, 2}, []int64{}, []string{"a"}, []string{}, map[int64]struct{}{1: {}}, map[string]struct{}{"a": {}}}
+// hostileTagged: a caller's own struct value with a field that Go cannot compare
+type hostileTagged struct {
+	Name string
+	Tags []string
+}
+
+var hostileDefaults = []interface{}{nil, int64(1), int64(0), true, false, "s", "", []int64{1, 2}, []int64{}, []string{"a"}, []string{}, map[int64]struct{}{1: {}}, map[string]struct{}{"a": {}},
+	// values of types the engine has no business with: uncomparable structs and arrays, functions, pointers, floats
+	hostileTagged{"x", []string{"a"}}, [1][]int64{{1}}, struct{ F func() }{}, func() {}, &hostileTagged{}, 1.5, int(3), map[string]interface{}{"k": []int64{1}}, [2]interface{}{[]int64{1}, 2},
+}
 
 func c06Config(infix bool, o OptSet, ev int, undefined bool, registerAlways bool) (*eval.Config, CaseCfg) {
 	cfg := CaseCfg{RegisterAlways: registerAlways, Opts: o, Events: ev, Undefined: undefined, Infix: infix, Consts: stdConsts, Custom: stdCustom, Stateless: stdStateless,
